@@ -582,9 +582,6 @@ pub fn extract(a: &dyn Array) -> Vec<V> {
 pub fn field(name: &str, dt: DataType, nullable: bool) -> FieldRef {
     Arc::new(Field::new(name, dt, nullable))
 }
-pub fn list_of(dt: DataType, nullable: bool) -> DataType {
-    DataType::List(field("item", dt, nullable))
-}
 pub fn struct_of(fs: Vec<FieldRef>) -> DataType {
     DataType::Struct(Fields::from(fs))
 }
